@@ -526,6 +526,13 @@ func (r *transport) backgroundRevalidate(
 			errc <- err
 			return
 		}
+		if resp.StatusCode == http.StatusNotModified && !sentValidatorsOf(req, stored.Data.Header) {
+			// The entry was replaced while the origin was asked: the 304 speaks about the response
+			// whose validators were sent, not about this one (RFC 9111 §4.3.4), and updates nothing.
+			_ = resp.Body.Close()
+			errc <- nil
+			return
+		}
 		revalCtx := internal.RevalidationContext{
 			URLKey:    urlKey,
 			Start:     start,
